@@ -502,6 +502,9 @@ func genC13(r *Rand, n int, tier string, emit func(string)) {
 		switch pickCase {
 		case 0, 1, 2: // chain-sync NtN client, pipelined RequestNext, fast server
 			nm := Pick(r, 1, 3, 8, 20, 40, 80)
+			if tier == "race" {
+				nm = Pick(r, 1, 3, 6)
+			}
 			steps := []string{}
 			over := r.Chance(1, 8)
 			for k := 0; k < nm; k++ {
